@@ -129,3 +129,23 @@ def typhon_state():
         fsmod, fsmod.FileSet, umod, hmod, hmod.FileInfo, hmod.FileHandler,
         hmod.NetCDF4, hmod.CSV, cmod, cmod.Collocator, ccmod, ccmod.Collocations,
         gmod, gmod.GeoIndex, tmod, tmod.IntervalTree, topo, topo.SRTM30)
+
+
+class _DetNames:
+    """Stands in for tempfile's random name sequence: temporary names are one
+    more source of randomness a run must not depend on."""
+
+    def __init__(self):
+        self.n = 0
+
+    def __iter__(self):
+        return self
+
+    def __next__(self):
+        self.n += 1
+        return f"sim{self.n:06d}"
+
+
+def deterministic_tempnames():
+    import tempfile
+    tempfile._name_sequence = _DetNames()
